@@ -339,4 +339,45 @@ theorem run_mergeF (H : Crypto.Prims) (P : Prims) (L : SealLaws P) (kl : List Ke
         rw [plainOfF_cons e rest, List.append_assoc]
       · simp [updF, hd]
 
+-- ------------------------------------------------------------------ when the walk is right
+theorem walk_msgs (ms : List HsMsg) (hok : ∀ m ∈ ms, MsgOk m) (pre : Bytes) (fuel : Nat) (hf : ms.length ≤ fuel) :
+    walk (pre ++ encMsgs ms) fuel pre.length = ms.map (·.1) := by
+  induction ms generalizing pre fuel with
+  | nil =>
+    cases fuel with
+    | zero => rfl
+    | succ n => simp [walk, encMsgs]
+  | cons m ms ih =>
+    cases fuel with
+    | zero => simp at hf
+    | succ n =>
+      have hm : MsgOk m := hok m (by simp)
+      have hlen : Bytes.beNat (Bytes.slice (pre ++ encMsgs (m :: ms)) (pre.length + 1) (pre.length + 4)) = m.2.length := by
+        simp only [encMsgs, List.flatMap_cons, encMsg_eq, List.cons_append, List.append_assoc]
+        rw [slice_mid _ _ _ _ (Lemmas.TlsHello.u24_length _)]
+        exact Lemmas.TlsHello.beNat_u24 _ hm
+      have hget : (pre ++ encMsgs (m :: ms))[pre.length]? = some m.1 := by
+        simp [encMsgs, encMsg_eq]
+      have hidx : pre.length + m.2.length + 4 = (pre ++ encMsg m).length := by
+        simp [encMsg_eq, Lemmas.TlsHello.u24_length]; omega
+      have hsplit : pre ++ encMsgs (m :: ms) = (pre ++ encMsg m) ++ encMsgs ms := by
+        simp [encMsgs]
+      rw [walk, hget]
+      simp only [hlen, hidx, List.map_cons]
+      rw [hsplit, ih (fun m' h' => hok m' (by simp [h'])) (pre ++ encMsg m) n (by simpa using hf)]
+
+theorem count20_map (l : List HsMsg) :
+    ((l.map (·.1)).filter (· = 20)).length = (l.filter fun m => m.1 = 20).length := by
+  induction l with
+  | nil => rfl
+  | cons m r ih => by_cases h : m.1 = 20 <;> simp [List.filter_cons, h, ih]
+
+/-- records of whole messages are in lockstep: the walk sees every message type, so it counts the Finished messages -/
+theorem seenFins_whole (ms : List HsMsg) (hok : ∀ m ∈ ms, MsgOk m) : seenFins (encMsgs ms) = finCount ms := by
+  have := walk_msgs ms hok [] (encMsgs ms).length (encMsgs_length_ge ms)
+  simp only [List.nil_append, List.length_nil] at this
+  unfold seenFins finCount
+  rw [this]
+  exact count20_map ms
+
 end TLX.Lemmas.Capstone2
